@@ -1,7 +1,25 @@
 package main
 
-// Replay of solver models against the real code (generic driver for
-// first-order signatures). Filled in incrementally.
+// Replay of solver models against the real code: generic driver for
+// functions whose inputs can be rebuilt from the model (integers, booleans,
+// strings, pointers to structs of those, slices of those). The contract's
+// ensures clauses are compiled to Go and evaluated on the real result.
+
+import (
+	"bytes"
+	"context"
+	"encoding/json"
+	"fmt"
+	"go/types"
+	"math/big"
+	"os"
+	"os/exec"
+	"path/filepath"
+	"strings"
+	"time"
+
+	"golang.org/x/tools/go/ssa"
+)
 
 type replayResult struct {
 	test       string
@@ -10,6 +28,576 @@ type replayResult struct {
 	note       string
 }
 
-func tryReplay(eng *Engine, verif string, o *Obligation) *replayResult {
-	return nil
+const maxStrReplay = 24
+const maxSliceReplay = 6
+
+// wantParamValues registers the model terms needed to rebuild the inputs.
+func (fr *Frame) wantParamValues(entry *State) {
+	for _, p := range fr.fn.Params {
+		fr.wantTerm(fr.val(p), p.Type(), 0, entry)
+	}
 }
+
+func (fr *Frame) wantTerm(term string, t types.Type, depth int, st *State) {
+	vc := fr.vc
+	if depth > 3 {
+		return
+	}
+	switch u := t.Underlying().(type) {
+	case *types.Basic:
+		switch {
+		case u.Info()&types.IsString != 0:
+			vc.wantValue(fmt.Sprintf("(slen %s)", term))
+			vc.smallHints = append(vc.smallHints, vc.leInt(fmt.Sprintf("(slen %s)", term), vc.intLitN(8, types.Typ[types.Int])))
+			for i := 0; i < maxStrReplay; i++ {
+				vc.wantValue(fmt.Sprintf("(sat %s %s)", term, vc.intLitN(int64(i), types.Typ[types.Int])))
+			}
+		case u.Info()&(types.IsInteger|types.IsBoolean) != 0:
+			vc.wantValue(term)
+		}
+	case *types.Pointer:
+		vc.wantValue(term)
+		if st, ok := u.Elem().Underlying().(*types.Struct); ok {
+			hv := vc.heapVar(u.Elem())
+			obj := fmt.Sprintf("(select %s %s)", fr.entryState().get(hv), term)
+			for i := 0; i < st.NumFields(); i++ {
+				fr.wantTerm(fmt.Sprintf("(%s %s)", vc.fieldAcc(u.Elem(), i), obj), st.Field(i).Type(), depth+1, nil)
+			}
+		}
+	case *types.Slice:
+		for _, acc := range []string{"sref", "soff", "slen_", "scap"} {
+			vc.wantValue(fmt.Sprintf("(%s %s)", acc, term))
+		}
+		hv := vc.arrHeapVar(u.Elem())
+		vc.smallHints = append(vc.smallHints, vc.leInt(fmt.Sprintf("(scap %s)", term), vc.intLitN(5, types.Typ[types.Int])))
+		arr := fmt.Sprintf("(select %s (sref %s))", fr.entryState().get(hv), term)
+		for i := 0; i < maxSliceReplay; i++ {
+			idx := vc.addInt(fmt.Sprintf("(soff %s)", term), vc.intLitN(int64(i), types.Typ[types.Int]))
+			fr.wantTerm(fmt.Sprintf("(select %s %s)", arr, idx), u.Elem(), depth+1, nil)
+		}
+	case *types.Struct:
+		for i := 0; i < u.NumFields(); i++ {
+			fr.wantTerm(fmt.Sprintf("(%s %s)", vc.fieldAcc(t, i), term), u.Field(i).Type(), depth+1, nil)
+		}
+	}
+}
+
+func (fr *Frame) entryState() *State { return fr.entry }
+
+// ---------------------------------------------------------------- model values
+
+func parseModelInt(s string) (*big.Int, bool) {
+	s = strings.TrimSpace(s)
+	switch {
+	case strings.HasPrefix(s, "#x"):
+		v, ok := new(big.Int).SetString(s[2:], 16)
+		return v, ok
+	case strings.HasPrefix(s, "#b"):
+		v, ok := new(big.Int).SetString(s[2:], 2)
+		return v, ok
+	case strings.HasPrefix(s, "(- ") && strings.HasSuffix(s, ")"):
+		v, ok := new(big.Int).SetString(strings.TrimSpace(s[3:len(s)-1]), 10)
+		if ok {
+			v.Neg(v)
+		}
+		return v, ok
+	case strings.HasPrefix(s, "(_ bv"):
+		f := strings.Fields(s[5:])
+		v, ok := new(big.Int).SetString(f[0], 10)
+		return v, ok
+	}
+	v, ok := new(big.Int).SetString(s, 10)
+	return v, ok
+}
+
+type rebuilder struct {
+	vc     *VC
+	fr     *Frame
+	model  map[string]string
+	pkg    *types.Package
+	decls  []string
+	byAddr map[string]string // type+address -> variable
+	n      int
+	err    string
+}
+
+func (rb *rebuilder) qual(p *types.Package) string {
+	if p == rb.pkg {
+		return ""
+	}
+	return p.Name()
+}
+
+func (rb *rebuilder) intVal(term string, t types.Type) (*big.Int, bool) {
+	s, ok := rb.model[term]
+	if !ok {
+		return nil, false
+	}
+	v, ok := parseModelInt(s)
+	if !ok {
+		return nil, false
+	}
+	if w, signed, isInt := intInfo(t); isInt && signed && rb.vc.isBV() {
+		if v.Cmp(pow2(w-1)) >= 0 {
+			v.Sub(v, pow2(w))
+		}
+	}
+	return v, true
+}
+
+// goValue returns a Go expression for the model value of term (of Go type t).
+func (rb *rebuilder) goValue(term string, t types.Type, depth int) (string, bool) {
+	vc := rb.vc
+	ts := types.TypeString(t, rb.qual)
+	switch u := t.Underlying().(type) {
+	case *types.Basic:
+		switch {
+		case u.Info()&types.IsBoolean != 0:
+			s, ok := rb.model[term]
+			if !ok {
+				return "false", true
+			}
+			return s, s == "true" || s == "false"
+		case u.Info()&types.IsString != 0:
+			n, ok := rb.intVal(fmt.Sprintf("(slen %s)", term), types.Typ[types.Int])
+			if !ok {
+				return `""`, true
+			}
+			if n.Int64() > maxStrReplay || n.Sign() < 0 {
+				rb.err = fmt.Sprintf("model string of length %s exceeds the replay limit", n)
+				return "", false
+			}
+			var bs []byte
+			for i := int64(0); i < n.Int64(); i++ {
+				c, ok := rb.intVal(fmt.Sprintf("(sat %s %s)", term, vc.intLitN(i, types.Typ[types.Int])), types.Typ[types.Uint8])
+				if !ok {
+					c = big.NewInt('a')
+				}
+				bs = append(bs, byte(c.Int64()))
+			}
+			return fmt.Sprintf("%s(%q)", ts, string(bs)), true
+		case u.Info()&types.IsInteger != 0:
+			v, ok := rb.intVal(term, t)
+			if !ok {
+				return fmt.Sprintf("%s(0)", ts), true
+			}
+			return fmt.Sprintf("%s(%s)", ts, v.String()), true
+		}
+	case *types.Pointer:
+		a, ok := rb.intVal(term, types.Typ[types.Int])
+		if !ok || a.Sign() == 0 {
+			return "nil", true
+		}
+		key := ts + "@" + a.String()
+		if v, ok := rb.byAddr[key]; ok {
+			return v, true
+		}
+		st, isStruct := u.Elem().Underlying().(*types.Struct)
+		if !isStruct || depth > 3 {
+			rb.err = "pointer to non-struct in model"
+			return "", false
+		}
+		rb.n++
+		name := fmt.Sprintf("obj%d", rb.n)
+		rb.byAddr[key] = name
+		hv := vc.heapVar(u.Elem())
+		obj := fmt.Sprintf("(select %s %s)", rb.fr.entry.get(hv), term)
+		var fields []string
+		for i := 0; i < st.NumFields(); i++ {
+			f := st.Field(i)
+			if !f.Exported() && f.Pkg() != rb.pkg {
+				continue
+			}
+			switch f.Type().Underlying().(type) {
+			case *types.Map, *types.Chan, *types.Signature, *types.Interface:
+				continue
+			}
+			if named, ok := f.Type().(*types.Named); ok && named.Obj().Pkg() != nil && strings.Contains(named.Obj().Pkg().Path(), "protoimpl") {
+				continue
+			}
+			gv, ok := rb.goValue(fmt.Sprintf("(%s %s)", vc.fieldAcc(u.Elem(), i), obj), f.Type(), depth+1)
+			if !ok {
+				return "", false
+			}
+			fields = append(fields, fmt.Sprintf("%s: %s", f.Name(), gv))
+		}
+		rb.decls = append(rb.decls, fmt.Sprintf("%s := &%s{%s}", name, types.TypeString(u.Elem(), rb.qual), strings.Join(fields, ", ")))
+		return name, true
+	case *types.Slice:
+		ref, ok := rb.intVal(fmt.Sprintf("(sref %s)", term), types.Typ[types.Int])
+		if !ok || ref.Sign() == 0 {
+			return "nil", true
+		}
+		n, _ := rb.intVal(fmt.Sprintf("(slen_ %s)", term), types.Typ[types.Int])
+		c, _ := rb.intVal(fmt.Sprintf("(scap %s)", term), types.Typ[types.Int])
+		if n == nil || c == nil || n.Int64() > maxSliceReplay || c.Int64() > 1<<20 {
+			rb.err = "model slice too long for replay"
+			return "", false
+		}
+		hv := vc.arrHeapVar(u.Elem())
+		arr := fmt.Sprintf("(select %s (sref %s))", rb.fr.entry.get(hv), term)
+		var elems []string
+		for i := int64(0); i < n.Int64(); i++ {
+			idx := vc.addInt(fmt.Sprintf("(soff %s)", term), vc.intLitN(i, types.Typ[types.Int]))
+			gv, ok := rb.goValue(fmt.Sprintf("(select %s %s)", arr, idx), u.Elem(), depth+1)
+			if !ok {
+				return "", false
+			}
+			elems = append(elems, gv)
+		}
+		return fmt.Sprintf("append(make(%s, 0, %d), %s{%s}...)", ts, c.Int64(), ts, strings.Join(elems, ", ")), true
+	case *types.Struct:
+		var fields []string
+		for i := 0; i < u.NumFields(); i++ {
+			f := u.Field(i)
+			if !f.Exported() && f.Pkg() != rb.pkg {
+				continue
+			}
+			gv, ok := rb.goValue(fmt.Sprintf("(%s %s)", vc.fieldAcc(t, i), term), f.Type(), depth+1)
+			if !ok {
+				return "", false
+			}
+			fields = append(fields, fmt.Sprintf("%s: %s", f.Name(), gv))
+		}
+		return fmt.Sprintf("%s{%s}", ts, strings.Join(fields, ", ")), true
+	}
+	rb.err = "parameter type " + ts + " cannot be rebuilt from a model"
+	return "", false
+}
+
+// ---------------------------------------------------------------- contract -> Go
+
+type goGen struct {
+	eng    *Engine
+	preds  map[string]bool
+	order  []string
+	olds   []string // old snapshots: "oldK := expr"
+	ok     bool
+	reason string
+	inOld  bool
+}
+
+func (g *goGen) fail(why string) string {
+	g.ok = false
+	if g.reason == "" {
+		g.reason = why
+	}
+	return "false"
+}
+
+func (g *goGen) typeStr(t TypeExpr) string {
+	if t.Name == "mathint" {
+		return "int"
+	}
+	return t.String()
+}
+
+func (g *goGen) expr(e Expr) string {
+	switch n := e.(type) {
+	case ENum:
+		return n.Text
+	case EBool:
+		return fmt.Sprint(n.Val)
+	case EStr:
+		return fmt.Sprintf("%q", n.Val)
+	case EChar:
+		return fmt.Sprintf("byte(%d)", n.Val)
+	case ENil:
+		return "nil"
+	case EIdent:
+		return n.Name
+	case EUnary:
+		return "(" + n.Op + g.expr(n.X) + ")"
+	case EBinary:
+		switch n.Op {
+		case "==>":
+			return "(!(" + g.expr(n.X) + ") || (" + g.expr(n.Y) + "))"
+		case "<==>":
+			return "((" + g.expr(n.X) + ") == (" + g.expr(n.Y) + "))"
+		}
+		return "(" + g.expr(n.X) + " " + n.Op + " " + g.expr(n.Y) + ")"
+	case ESel:
+		return g.expr(n.X) + "." + n.Sel
+	case EIndex:
+		return g.expr(n.X) + "[" + g.expr(n.I) + "]"
+	case EType:
+		return n.T.String()
+	case ECall:
+		if id, ok := n.Fun.(EIdent); ok {
+			switch id.Name {
+			case "old":
+				k := len(g.olds)
+				was := g.inOld
+				g.inOld = true
+				g.olds = append(g.olds, fmt.Sprintf("govcOld%d := %s", k, g.expr(n.Args[0])))
+				g.inOld = was
+				return fmt.Sprintf("govcOld%d", k)
+			case "ite":
+				return fmt.Sprintf("govcIte(%s, %s, %s)", g.expr(n.Args[0]), g.expr(n.Args[1]), g.expr(n.Args[2]))
+			case "len", "cap":
+				return id.Name + "(" + g.expr(n.Args[0]) + ")"
+			case "cnt", "when", "arg", "clk", "fresh", "ref", "off", "haskey", "mapobj", "typeis", "dyn":
+				return g.fail("contract uses ghost/heap construct " + id.Name + " that has no executable counterpart")
+			}
+			if pd, ok := g.eng.cs.Preds[id.Name]; ok {
+				g.needPred(pd)
+				var as []string
+				for _, a := range n.Args {
+					as = append(as, g.expr(a))
+				}
+				return "govcSpec_" + id.Name + "(" + strings.Join(as, ", ") + ")"
+			}
+		}
+		var as []string
+		for _, a := range n.Args {
+			as = append(as, g.expr(a))
+		}
+		return g.expr(n.Fun) + "(" + strings.Join(as, ", ") + ")"
+	case EQuant:
+		if len(n.Vars) != 1 {
+			return g.fail("multi-variable quantifier")
+		}
+		v := n.Vars[0]
+		lo, hi, ok := quantRange(n, v.Name)
+		if !ok {
+			return g.fail("quantifier without an explicit integer range")
+		}
+		fn := "govcForall"
+		if !n.Forall {
+			fn = "govcExists"
+		}
+		return fmt.Sprintf("%s(int(%s), int(%s), func(govcV int) bool { %s := %s(govcV); _ = %s; return %s })", fn, g.expr(lo), g.expr(hi), v.Name, g.typeStr(v.T), v.Name, g.expr(n.Body))
+	}
+	return g.fail(fmt.Sprintf("expression %T has no executable counterpart", e))
+}
+
+// quantRange extracts inclusive bounds [lo, hi] for the bound variable.
+func quantRange(q EQuant, v string) (lo, hi Expr, ok bool) {
+	var conj []Expr
+	var flatten func(e Expr)
+	flatten = func(e Expr) {
+		if b, isB := e.(EBinary); isB && b.Op == "&&" {
+			flatten(b.X)
+			flatten(b.Y)
+			return
+		}
+		conj = append(conj, e)
+	}
+	if q.Forall {
+		b, isB := q.Body.(EBinary)
+		if !isB || b.Op != "==>" {
+			return nil, nil, false
+		}
+		flatten(b.X)
+	} else {
+		flatten(q.Body)
+	}
+	isV := func(e Expr) bool { id, ok := e.(EIdent); return ok && id.Name == v }
+	mentions := func(e Expr) bool {
+		m := false
+		walkExpr(e, func(x Expr) {
+			if isV(x) {
+				m = true
+			}
+		})
+		return m
+	}
+	for _, c := range conj {
+		b, isB := c.(EBinary)
+		if !isB {
+			continue
+		}
+		switch {
+		case b.Op == "<=" && isV(b.Y) && !mentions(b.X) && lo == nil:
+			lo = b.X
+		case b.Op == "<" && isV(b.Y) && !mentions(b.X) && lo == nil:
+			lo = EBinary{"+", b.X, ENum{"1"}}
+		case b.Op == ">=" && isV(b.X) && !mentions(b.Y) && lo == nil:
+			lo = b.Y
+		case b.Op == "<" && isV(b.X) && !mentions(b.Y) && hi == nil:
+			hi = EBinary{"-", b.Y, ENum{"1"}}
+		case b.Op == "<=" && isV(b.X) && !mentions(b.Y) && hi == nil:
+			hi = b.Y
+		}
+	}
+	return lo, hi, lo != nil && hi != nil
+}
+
+func (g *goGen) needPred(pd *PredDecl) {
+	if g.preds[pd.Name] {
+		return
+	}
+	g.preds[pd.Name] = true
+	var ps []string
+	for _, p := range pd.Params {
+		ps = append(ps, p.Name+" "+g.typeStr(p.T))
+	}
+	body := g.expr(pd.Body)
+	g.order = append(g.order, fmt.Sprintf("func govcSpec_%s(%s) %s { return %s }", pd.Name, strings.Join(ps, ", "), g.typeStr(pd.Result), body))
+}
+
+const replayPrelude = `
+func govcIte[T any](c bool, a, b T) T { if c { return a }; return b }
+func govcForall(lo, hi int, f func(int) bool) bool { for i := lo; i <= hi; i++ { if !f(i) { return false } }; return true }
+func govcExists(lo, hi int, f func(int) bool) bool { for i := lo; i <= hi; i++ { if f(i) { return true } }; return false }
+`
+
+// ---------------------------------------------------------------- driver
+
+func tryReplay(eng *Engine, verif string, o *Obligation) *replayResult {
+	vc := o.vc
+	if vc == nil || vc.replayFrame == nil || o.Model == nil {
+		return nil
+	}
+	fr := vc.replayFrame
+	fn := fr.fn
+	fc := fr.fc
+	if fn == nil || fc == nil || fn.Pkg == nil || fn.Parent() != nil {
+		return &replayResult{note: "no generic replay driver for closures / functions without package"}
+	}
+	rb := &rebuilder{vc: vc, fr: fr, model: o.Model, pkg: fn.Pkg.Pkg, byAddr: map[string]string{}}
+	var args []string
+	var recv string
+	for i, p := range fn.Params {
+		gv, ok := rb.goValue(fr.val(p), p.Type(), 0)
+		if !ok {
+			return &replayResult{note: "model not replayable: " + rb.err}
+		}
+		name := "in_" + sanitize(p.Name())
+		rb.decls = append(rb.decls, fmt.Sprintf("%s := %s", name, gv), fmt.Sprintf("_ = %s", name))
+		if i == 0 && fn.Signature.Recv() != nil {
+			recv = name
+			continue
+		}
+		args = append(args, name)
+	}
+	g := &goGen{eng: eng, preds: map[string]bool{}, ok: true}
+	// bind parameter names used in contracts to the input variables
+	var binds []string
+	for _, p := range fn.Params {
+		if p.Name() != "" && p.Name() != "_" {
+			binds = append(binds, fmt.Sprintf("%s := in_%s; _ = %s", p.Name(), sanitize(p.Name()), p.Name()))
+		}
+	}
+	// checks
+	type chk struct{ label, code, src string }
+	var checks []chk
+	for k, c := range fc.Ensures {
+		g.ok, g.reason = true, ""
+		code := g.expr(c.E)
+		label := c.Label
+		if label == "" {
+			label = fmt.Sprint(k)
+		}
+		if !g.ok {
+			continue
+		}
+		checks = append(checks, chk{label, code, c.Src})
+	}
+	nres := fn.Signature.Results().Len()
+	var resNames []string
+	var resBinds []string
+	for i := 0; i < nres; i++ {
+		rn := fmt.Sprintf("result%d", i)
+		resNames = append(resNames, rn)
+		resBinds = append(resBinds, fmt.Sprintf("_ = %s", rn))
+		if i == 0 {
+			resBinds = append(resBinds, "result := result0; _ = result")
+		}
+		if n := fn.Signature.Results().At(i).Name(); n != "" && n != "_" {
+			resBinds = append(resBinds, fmt.Sprintf("%s := %s; _ = %s", n, rn, n))
+		}
+	}
+	call := fn.Name() + "(" + strings.Join(args, ", ") + ")"
+	if recv != "" {
+		call = recv + "." + fn.Name() + "(" + strings.Join(args, ", ") + ")"
+	}
+	if nres > 0 {
+		call = strings.Join(resNames, ", ") + " := " + call
+	}
+	var sb strings.Builder
+	fmt.Fprintf(&sb, "package %s\n\nimport (\n\t\"fmt\"\n\t\"testing\"\n", fn.Pkg.Pkg.Name())
+	body := &strings.Builder{}
+	fmt.Fprintf(body, "func TestGovcReplay(t *testing.T) {\n")
+	fmt.Fprintf(body, "\tdefer func() {\n\t\tif r := recover(); r != nil {\n\t\t\tfmt.Println(\"GOVC-REPLAY-PANIC:\", r)\n\t\t\tt.Fail()\n\t\t}\n\t}()\n")
+	for _, d := range rb.decls {
+		fmt.Fprintf(body, "\t%s\n", d)
+	}
+	for _, b := range binds {
+		fmt.Fprintf(body, "\t%s\n", b)
+	}
+	for _, od := range g.olds {
+		fmt.Fprintf(body, "\t%s\n", od)
+	}
+	fmt.Fprintf(body, "\t%s\n", call)
+	for _, b := range resBinds {
+		fmt.Fprintf(body, "\t%s\n", b)
+	}
+	fmt.Fprintf(body, "\tfmt.Printf(\"GOVC-REPLAY-RESULT:")
+	for range resNames {
+		fmt.Fprintf(body, " %%v")
+	}
+	fmt.Fprintf(body, "\\n\"")
+	for _, r := range resNames {
+		fmt.Fprintf(body, ", %s", r)
+	}
+	fmt.Fprintf(body, ")\n")
+	for _, c := range checks {
+		fmt.Fprintf(body, "\tif !(%s) {\n\t\tfmt.Println(\"GOVC-REPLAY-VIOLATION ensures %s: \" + %q)\n\t\tt.Fail()\n\t}\n", c.code, c.label, c.src)
+	}
+	fmt.Fprintf(body, "}\n")
+	code := body.String() + strings.Join(g.order, "\n") + "\n" + replayPrelude
+	// imports on demand
+	for alias, path := range map[string]string{"os": "os", "syscall": "syscall", "types": modPath + "/types", "unix": "golang.org/x/sys/unix", "strings": "strings", "filepath": "path/filepath"} {
+		if strings.Contains(code, alias+".") && fn.Pkg.Pkg.Path() != path {
+			fmt.Fprintf(&sb, "\t%s %q\n", alias, path)
+		}
+	}
+	sb.WriteString(")\n\n")
+	sb.WriteString(code)
+	test := sb.String()
+	// run it with an overlay
+	dir, err := os.MkdirTemp(filepath.Dir(vc.eng.scratchDir()), "govc-replay-")
+	if err != nil {
+		return &replayResult{test: test, note: "cannot create scratch dir"}
+	}
+	defer os.RemoveAll(dir)
+	tf := filepath.Join(dir, "zz_govc_replay_test.go")
+	os.WriteFile(tf, []byte(test), 0644)
+	rel := strings.TrimPrefix(fn.Pkg.Pkg.Path(), modPath)
+	pkgDir := filepath.Join(eng.repo, rel)
+	ov := map[string]interface{}{"Replace": map[string]string{filepath.Join(pkgDir, "zz_govc_replay_test.go"): tf}}
+	ob, _ := json.Marshal(ov)
+	ovf := filepath.Join(dir, "overlay.json")
+	os.WriteFile(ovf, ob, 0644)
+	ctx, cancel := context.WithTimeout(context.Background(), 120*time.Second)
+	defer cancel()
+	cmd := exec.CommandContext(ctx, "go", "test", "-overlay", ovf, "-vet=off", "-count=1", "-timeout", "60s", "-run", "^TestGovcReplay$", ".")
+	cmd.Dir = pkgDir
+	cmd.Env = append(os.Environ(), "GOFLAGS=-mod=mod", "GOPROXY=off", "GOSUMDB=off", "GOTOOLCHAIN=local")
+	var out bytes.Buffer
+	cmd.Stdout, cmd.Stderr = &out, &out
+	cmd.Run()
+	outs := out.String()
+	rr := &replayResult{test: test, output: outs}
+	switch {
+	case strings.Contains(outs, "GOVC-REPLAY-VIOLATION") || strings.Contains(outs, "GOVC-REPLAY-PANIC"):
+		rr.reproduced = true
+		rr.note = "the real function, run on the solver's model, breaks its contract"
+	case strings.Contains(outs, "[build failed]") || strings.Contains(outs, "cannot use") || strings.Contains(outs, "undefined:"):
+		rr.note = "generated replay test did not compile"
+	default:
+		rr.note = "the real function satisfied every executable ensures clause on the model input (spurious through an abstraction, or the failed obligation is an invariant/intermediate one)"
+	}
+	return rr
+}
+
+func (eng *Engine) scratchDir() string {
+	d := os.Getenv("TMPDIR")
+	if d == "" {
+		d = "/var/tmp"
+	}
+	return filepath.Join(d, "x")
+}
+
+var _ ssa.Value
